@@ -51,12 +51,20 @@ Record mcfg := CFG { dry_run : bool; verify : bool; delete_old : bool }.
 
 Inductive phase := PSuccess | PSkippedEmpty | PDryRun | PFailLoad | PFailWrite | PFailVerify.
 
+(* what sits at the target path <swamp>.hyd *)
+Inductive prehyd :=
+| PreNone                    (* nothing *)
+| PreShort                   (* a file shorter than its header (+ name): an interrupted creation *)
+| PreFile (f : fimg).        (* anything else, as the reader / the writer's open sees it *)
+
+Definition hyd_img (p : prehyd) : option fimg := match p with PreFile f => Some f | _ => None end.
+
 Record mstate := MS { m_v1 : option v1folder;  (* None: the V1 files were deleted *)
-                      m_hyd : option fimg }.
+                      m_hyd : prehyd }.
 
 (* verifyMigration: LoadIndex must succeed and contain every expected key (values not compared) *)
-Definition verify_ok (hyd : option fimg) (expected : index) : bool :=
-  match hyd with
+Definition verify_ok (hyd : prehyd) (expected : index) : bool :=
+  match hyd_img hyd with
   | Some f =>
     match load_index f with
     | Some (ix, _) => forallb (fun p => match ilookup (fst p) ix with Some _ => true | None => false end) expected
@@ -65,19 +73,30 @@ Definition verify_ok (hyd : option fimg) (expected : index) : bool :=
   | None => false
   end.
 
-(* writeV2File: NewFileWriterWithName opens an existing .hyd for append; a failed write removes the file.
+(* writeV2File: NewFileWriterWithName. Nothing at the path: a fresh V3 file. An existing file is
+   opened for append: a file shorter than its header (+ name) is created again from scratch; an
+   invalid header is an error; otherwise an incomplete final block is cut off (the reader already
+   ignores it, so the file arrives here as [FGood] of its complete blocks) and new blocks are
+   appended - behind whatever the file holds, including a block that is complete but corrupt
+   ([FTorn]). A failed write removes the file.
    [write_fails]: a WriteEntry/Close error occurs (fault oracle). [perm]: map iteration order of the
-   deduplicated entries. Returns the .hyd afterwards and whether the write succeeded. *)
-Definition write_v2 (pre : option fimg) (nm : name) (ix : index) (perm : list key) (write_fails : bool)
-  : option fimg * bool :=
-  match open_temp (option_map NFile pre) nm with
-  | None => (pre, false)                                  (* writer cannot be created: nothing touched *)
-  | Some f0 =>
-    if write_fails then (None, false)                     (* os.Remove(filePath) *)
-    else (Some (fappend f0 (compact_entries ix perm)), true)
+   deduplicated entries. Returns the target path afterwards and whether the write succeeded. *)
+Definition open_target (pre : prehyd) (nm : name) : option fimg :=
+  match pre with
+  | PreNone | PreShort => Some (FGood nm [])
+  | PreFile f => open_temp (Some (NFile f)) nm
   end.
 
-Definition migrate (cfg : mcfg) (perm : list key) (write_fails : bool) (folder : v1folder) (pre : option fimg)
+Definition write_v2 (pre : prehyd) (nm : name) (ix : index) (perm : list key) (write_fails : bool)
+  : prehyd * bool :=
+  match open_target pre nm with
+  | None => (pre, false)                                  (* writer cannot be created: nothing touched *)
+  | Some f0 =>
+    if write_fails then (PreNone, false)                  (* os.Remove(filePath) *)
+    else (PreFile (fappend f0 (compact_entries ix perm)), true)
+  end.
+
+Definition migrate (cfg : mcfg) (perm : list key) (write_fails : bool) (folder : v1folder) (pre : prehyd)
   : mstate * phase :=
   let keep := MS (Some folder) pre in
   match mig_load (v1_files folder) with
@@ -90,7 +109,7 @@ Definition migrate (cfg : mcfg) (perm : list key) (write_fails : bool) (folder :
       match write_v2 pre (v1_meta folder) ix perm write_fails with
       | (hyd1, false) => (MS (Some folder) hyd1, PFailWrite)
       | (hyd1, true) =>
-        if verify cfg && negb (verify_ok hyd1 ix) then (MS (Some folder) None, PFailVerify)
+        if verify cfg && negb (verify_ok hyd1 ix) then (MS (Some folder) PreNone, PFailVerify)
         else (MS (if delete_old cfg then None else Some folder) hyd1, PSuccess)
       end
     end
@@ -150,12 +169,12 @@ Record mcase := MC {
   mc_folder : v1folder;                 (* as read by the harness with the real V1 filesystem layer *)
   mc_v1_loaded : index;                 (* what the real V1 chronicler Load pushed into its beacon *)
   mc_cfg : mcfg;
-  mc_pre : option fimg;                 (* .hyd present before the run *)
+  mc_pre : prehyd;                      (* target path before the run *)
   mc_write_fault : bool;                (* an RLIMIT_FSIZE fault was injected into the V2 write *)
   mc_phase : phase;                     (* observed outcome *)
   mc_v1_intact : bool;                  (* V1 folder byte-identical afterwards *)
   mc_v1_deleted : bool;                 (* V1 folder gone afterwards *)
-  mc_hyd : option fimg;                 (* .hyd afterwards, read by the real reader *)
+  mc_hyd : prehyd;                      (* target path afterwards, read by the real reader *)
   mc_v2_loaded : option (index * name)  (* real V2 chronicler Load of the result (beacon content) + stored name *)
 }.
 
@@ -171,7 +190,7 @@ Fixpoint cross_dup (fs : list vfile) : bool :=
 (* property oracle on observations alone. codes:
    2 V1 data damaged although migration did not succeed (or delete-old not requested)
    3 migrated swamp has a record the legacy engine would not load; 4 lost record; 5 value differs;
-   6 name differs; 7 as 3/4/5/6 but a .hyd existed at the target path before the run *)
+   6 name differs; 7 as 3/4/5/6 but a .hyd with a valid header existed at the target path before the run *)
 Definition mig_oracle (c : mcase) : N :=
   let deleted_ok := match mc_phase c with
                     | PSuccess => delete_old (mc_cfg c)
@@ -182,23 +201,30 @@ Definition mig_oracle (c : mcase) : N :=
   match mc_phase c with
   | PSuccess =>
     match mc_v2_loaded c with
-    | None => match mc_pre c with Some _ => 7 | None => 4 end
+    | None => match mc_pre c with PreFile _ => 7 | _ => 4 end
     | Some (ix, nm) =>
       let d := classify_diff (mc_v1_loaded c) ix in
       let d := if (d =? 5) && cross_dup (v1_files (mc_folder c)) then 0 else d in
       let d := if d =? 0 then (if nm =? v1_meta (mc_folder c) then 0 else 6) else d in
-      if d =? 0 then 0 else match mc_pre c with Some _ => 7 | None => d end
+      if d =? 0 then 0 else match mc_pre c with PreFile _ => 7 | _ => d end
     end
   | _ => 0
   end.
 
+Definition prehyd_eqb (a b : prehyd) : bool :=
+  match a, b with
+  | PreNone, PreNone | PreShort, PreShort => true
+  | PreFile f, PreFile g => fimg_obs_eqb f g
+  | _, _ => false
+  end.
+
 (* replay: the migrator model, with the iteration order read off the resulting file *)
 Definition mig_replay (c : mcase) : N :=
-  let perm := match mc_hyd c with Some (FGood _ es) => map e_key es | _ => [] end in
+  let perm := match mc_hyd c with PreFile (FGood _ es) => map e_key es | _ => [] end in
   let wf := match mc_phase c with PFailWrite => mc_write_fault c | _ => false end in
   let '(st, ph) := migrate (mc_cfg c) perm wf (mc_folder c) (mc_pre c) in
   let v1_ok := Bool.eqb (match m_v1 st with None => true | Some _ => false end) (mc_v1_deleted c) in
-  let hyd_ok := option_eqb fimg_obs_eqb (m_hyd st) (mc_hyd c) in
+  let hyd_ok := prehyd_eqb (m_hyd st) (mc_hyd c) in
   (* the real V1 Load agrees with the model's V1 load of the folder as read *)
   let v1l_ok := cross_dup (v1_files (mc_folder c)) || index_eqb (v1_load (v1_files (mc_folder c))) (mc_v1_loaded c) in
   if phase_eqb ph (mc_phase c) && v1_ok && hyd_ok && v1l_ok then 0 else 1.
